@@ -205,7 +205,19 @@ fn expand(items: &[Item]) -> Vec<(DltMessage, bool)> {
 
 const PLUGIN_NAMES: [&str; 6] = ["NonVerbose", "SomeIp", "CAN", "Muniic", "Rewrite", "FileTransfer"];
 
-fn mk_plugin(k: usize, keep_flda: bool) -> Option<Box<dyn Plugin + Send>> {
+/// restriction of the file transfer plugin: 0 none, 1 application id, 2 application and context id, 3 context id
+fn ft_accepts(restrict: usize, m: &DltMessage) -> bool {
+    let a = m.apid().map_or(false, |a| *a == DltChar4::from_buf(b"SYS\0"));
+    let c = m.ctid().map_or(false, |c| *c == DltChar4::from_buf(b"FILE"));
+    match restrict % 4 {
+        1 => a,
+        2 => a && c,
+        3 => c,
+        _ => true,
+    }
+}
+
+fn mk_plugin(k: usize, keep_flda: bool, restrict: usize) -> Option<Box<dyn Plugin + Send>> {
     let mut eac = EacStats::new();
     let cfg = match k {
         0 => serde_json::json!({"name":"NonVerbose","fibexDir":repo_tests()}),
@@ -213,7 +225,16 @@ fn mk_plugin(k: usize, keep_flda: bool) -> Option<Box<dyn Plugin + Send>> {
         2 => serde_json::json!({"name":"CAN","fibexDir":crate::chain::can_fibex_dir()}),
         3 => serde_json::json!({"name":"Muniic","jsonDir":format!("{}/muniic", repo_tests())}),
         4 => serde_json::from_str(&std::fs::read_to_string(format!("{}/rewrite.cfg", repo_tests())).ok()?).ok()?,
-        _ => serde_json::json!({"name":"FileTransfer","allowSave":false,"keepFLDA":keep_flda}),
+        _ => {
+            let mut c = serde_json::json!({"name":"FileTransfer","allowSave":false,"keepFLDA":keep_flda});
+            if matches!(restrict % 4, 1 | 2) {
+                c["apid"] = "SYS".into();
+            }
+            if matches!(restrict % 4, 2 | 3) {
+                c["ctid"] = "FILE".into();
+            }
+            c
+        }
     };
     get_plugin(cfg.as_object()?, &mut eac)
 }
@@ -230,9 +251,10 @@ fn decoders(v: &Case, rep: &mut Rep) -> Result<(), String> {
             kinds.push(k);
         }
     }
+    let restrict = (sel.iter().map(|x| *x as usize).sum::<usize>() + items.len()) % 4;
     let mut plugins = vec![];
     for k in &kinds {
-        plugins.push(mk_plugin(*k, *keep_flda).ok_or(format!("plugin {} could not be built from the repository config", PLUGIN_NAMES[*k]))?);
+        plugins.push(mk_plugin(*k, *keep_flda, restrict).ok_or(format!("plugin {} could not be built from the repository config", PLUGIN_NAMES[*k]))?);
     }
     let input = expand(items);
     let ft_drops = kinds.contains(&5) && !*keep_flda;
@@ -255,7 +277,7 @@ fn decoders(v: &Case, rep: &mut Rep) -> Result<(), String> {
                 expected.push(m);
                 oi += 1;
             } else {
-                ensure!(ft_drops && *flda, "message {} (apid {:?} ctid {:?}) was not forwarded in its place (plugins {:?}); next forwarded index: {:?}", m.index, m.apid(), m.ctid(), kinds.iter().map(|k| PLUGIN_NAMES[*k]).collect::<Vec<_>>(), out.get(oi).map(|o| o.index));
+                ensure!(ft_drops && *flda && ft_accepts(restrict, m), "message {} (apid {:?} ctid {:?}) was not forwarded in its place (plugins {:?}, file transfer restriction {}); next forwarded index: {:?}", m.index, m.apid(), m.ctid(), kinds.iter().map(|k| PLUGIN_NAMES[*k]).collect::<Vec<_>>(), restrict, out.get(oi).map(|o| o.index));
                 dropped += 1;
             }
         }
@@ -307,6 +329,7 @@ fn decoders(v: &Case, rep: &mut Rep) -> Result<(), String> {
     rep.label_if(ext_filled > 0, "ext_header_filled");
     rep.label_if(ts_changed > 0, "timestamp_rewritten");
     rep.label_if(dropped > 0, "flda_dropped");
+    rep.label_if(ft_drops && input.iter().any(|(m, flda)| *flda && !ft_accepts(restrict, m)), "data_package_outside_of_the_plugins_restriction");
     rep.label_if(items.iter().any(|i| matches!(i, Item::Proto(_))), "hostile_trigger");
     rep.label_if(kinds.len() >= 2, "ge2_plugins");
     rep.nontrivial = decoded > 0 && kinds.len() >= 2;
@@ -516,10 +539,10 @@ pub fn def(tier: Tier) -> PropertyDef {
     let case = (prop::collection::vec(0u8..6, 0..7), any::<bool>(), prop::collection::vec(item, 1..25));
     PropertyDef {
         id: "C19",
-        rule: "streams mixing messages from the repository example files (dlt, asc/CAN), trigger shapes (non-verbose ids of tests/non_verbose*.xml incl. too short payloads and unknown ECU, SOME/IP service/method ids of tests/fibex1.xml, Muniic 13-argument messages, SYS/JOUR lines for tests/rewrite.cfg, FLST/FLDA/FLFI transfers) and arbitrary traffic, through plugins_process_msgs with every subset/order of {NonVerbose, SomeIp, CAN, Muniic, Rewrite, FileTransfer(keepFLDA on/off)} built by factory::get_plugin from the repository configs; oracle: output = input minus FLDA when configured; index, reception time, ECU, payload, lifecycle, standard header, existing extended header untouched; timestamp only with Rewrite. Anonymise: populations of 1..8 ECUs x up to 40 APIDs/CTIDs; mapping function + injective, times untouched, detector on original and anonymised trace gives the same partition, starts, ends, counts. Non-trivial: >=1 message text decoded and >=2 plugins; anonymise: >=2 ECUs and >=2 lifecycles.",
+        rule: "streams mixing messages from the repository example files (dlt, asc/CAN), trigger shapes (non-verbose ids of tests/non_verbose*.xml incl. too short payloads and unknown ECU, SOME/IP service/method ids of tests/fibex1.xml, Muniic 13-argument messages, SYS/JOUR lines for tests/rewrite.cfg, FLST/FLDA/FLFI transfers, data packages also from other applications/contexts) and arbitrary traffic, through plugins_process_msgs with every subset/order of {NonVerbose, SomeIp, CAN, Muniic, Rewrite, FileTransfer(keepFLDA on/off; unrestricted / apid / apid+ctid / ctid)} built by factory::get_plugin from the repository configs; oracle: output = input minus FLDA of the configured application/context when configured; index, reception time, ECU, payload, lifecycle, standard header, existing extended header untouched; timestamp only with Rewrite. Anonymise: populations of 1..8 ECUs x up to 40 APIDs/CTIDs; mapping function + injective, times untouched, detector on original and anonymised trace gives the same partition, starts, ends, counts. Non-trivial: >=1 message text decoded and >=2 plugins; anonymise: >=2 ECUs and >=2 lifecycles.",
         assumptions: vec!["plugins are configured from /repo/tests (fibex1.xml, non_verbose*.xml, muniic, rewrite.cfg); the repository FIBEX describes no CAN channel: the CAN plugin is configured with /verif/data/can_fibex/can1.xml (one channel, 5 frames: odd-sized signed/unsigned signals in both byte orders, float, text table, multiplexed PDU, a byte field that cannot be decoded) and fed with frames produced by the ASC converter", "control responses are not part of the anonymise stream (their payload is rewritten on purpose)"],
         subs: vec![
-            sub("decoder_plugins", tier.pick(150_000, 2_000_000), case, decoders).rates(&[("text_decoded", 0.3), ("ge2_plugins", 0.5), ("flda_dropped", 0.02), ("ext_header_filled", 0.03), ("timestamp_rewritten", 0.03), ("someip_text", 0.02), ("muniic_text", 0.02), ("nonverbose_text", 0.05), ("rewrite_text", 0.03), ("hostile_trigger", 0.5), ("can_frame_decoded", 0.03)]).shrink_iters(300).boxed(),
+            sub("decoder_plugins", tier.pick(150_000, 2_000_000), case, decoders).rates(&[("text_decoded", 0.3), ("ge2_plugins", 0.5), ("flda_dropped", 0.02), ("data_package_outside_of_the_plugins_restriction", 0.01), ("ext_header_filled", 0.03), ("timestamp_rewritten", 0.03), ("someip_text", 0.02), ("muniic_text", 0.02), ("nonverbose_text", 0.05), ("rewrite_text", 0.03), ("hostile_trigger", 0.5), ("can_frame_decoded", 0.03)]).shrink_iters(300).boxed(),
             sub("anonymise", tier.pick(150_000, 2_000_000), prop::collection::vec(aev(3, 4), 1..80), anonymise).rates(&[("ge2_ecus", 0.5), ("gt3_lifecycles", 0.3), ("msg_without_ext_header", 0.3)]).boxed(),
             crate::props::binsubs::c19_sub(tier),
             sub("anonymise_many_ids", tier.pick(8_000, 100_000), prop::collection::vec(aev(8, 40), 50..400), anonymise).boxed(),
